@@ -4,3 +4,4 @@ import Deepali.Model.Grid
 import Deepali.Proto
 import Deepali.Drv.All
 import Deepali.Props.C01
+import Deepali.Props.C05
